@@ -152,7 +152,12 @@ def find_component_connection_edge(
     best_dist = np.inf
     best_edge = (indices[0][0], indices[1][0])
 
+    seen_states = set()
     while changed[0] or changed[1]:
+        state = (query_side, indices[0].tobytes(), indices[1].tobytes(), bool(changed[0]), bool(changed[1]))
+        if state in seen_states:
+            break
+        seen_states.add(state)
         inds, dists, _ = search_closure(
             query_points, candidate_indices, search_size, epsilon, visited
         )
